@@ -19,9 +19,11 @@ CLAIMS = {
 }
 OPTIONAL_CLAIMS = ('C06.glob',)
 GOALS = {'quick': ['two port variables on one node', 'dotdot in a path',
-                   '_path dictionary port', 'glob port', 'scalar port'],
+                   '_path dictionary port', 'glob port', 'scalar port',
+                   'nested schema port'],
          'thorough': ['two port variables on one node', 'dotdot in a path',
-                      '_path dictionary port', 'glob port', 'scalar port']}
+                      '_path dictionary port', 'glob port', 'scalar port',
+                      'nested schema port']}
 STUBS = ['one process whose ports schema / topology are produced by a generator '
          'driven by solver-decided choices; it records the states of its first '
          'invocation and returns symbolic updates for every port variable']
@@ -30,7 +32,7 @@ ASSUMPTIONS = [
     'branch of another target (such combinations are skipped and counted)',
     'accumulate updater (default) so that colliding updates commute']
 BOUNDS = {'quick': '3 ports (process at the root) or 2 ports (process two levels down) x {dict port, scalar port, _path dictionary port '
-                   'with a renamed variable, glob port} x 7 wirings over '
+                   'with a renamed variable, glob port, port with a schema nested two levels} x 7 wirings over '
                    '{A,B,inner,up,..}, process at depth 0 or 2, values in [-9,9]',
           'thorough': '3 ports, same kinds and wirings, process depth 0..2'}
 OUTSIDE = "'**' ports, _reduce, ill-formed topologies (undeclared ports are " \
@@ -38,7 +40,7 @@ OUTSIDE = "'**' ports, _reduce, ill-formed topologies (undeclared ports are " \
 
 PLAIN = [('A',), ('B',), ('A', 'inner'), ('..', 'A'), ('..', 'up', 'B'),
          ('A', '..', 'B'), ('B', 'inner', '..')]
-KINDS = ['dict', 'scalar', 'pathdict', 'glob']
+KINDS = ['dict', 'scalar', 'pathdict', 'glob', 'nested']
 
 
 class P(Process):
@@ -76,6 +78,7 @@ def body(ctx, cfg):
     schema, topo = {}, {}
     targets = {}       # (port, var, child) -> absolute node path
     globs = {}         # port -> absolute node whose children it lists
+    nested_ports = set()
     for i in range(cfg['nports']):
         port = 'p%d' % i
         kind = cfg['k0'] if i == 0 else ctx.choice('kind', len(KINDS))
@@ -103,6 +106,15 @@ def body(ctx, cfg):
             targets[(port, 'v', None)] = resolve(base, ren)
             targets[(port, 'u', None)] = base + ('u',)
             ctx.goal('_path dictionary port')
+        elif KINDS[kind] == 'nested':
+            # schema nested two levels under the port: port -> inner -> v
+            schema[port] = {'inner': {'v': {'_default': 0}},
+                            'u': {'_default': 0}}
+            topo[port] = w
+            targets[(port, 'v', 'inner')] = base + ('inner', 'v')
+            targets[(port, 'u', None)] = base + ('u',)
+            nested_ports.add(port)
+            ctx.goal('nested schema port')
         else:
             schema[port] = {'*': {'v': {'_default': 0}}}
             topo[port] = w
